@@ -6,7 +6,7 @@ use ckb_error::is_internal_db_error;
 use ckb_logger::debug;
 use ckb_network::{CKBProtocolContext, PeerIndex};
 use ckb_types::packed::Byte32;
-use ckb_types::{packed, prelude::*};
+use ckb_types::{core, packed, prelude::*};
 use std::sync::Arc;
 
 pub struct BlockProcess<'a> {
@@ -39,6 +39,10 @@ impl<'a> BlockProcess<'a> {
             block.hash(),
         );
         let shared = self.synchronizer.shared();
+
+        if let Some(uncle_hash) = mutated_uncle(&block) {
+            return mutated_uncle_status(&block, &uncle_hash);
+        }
 
         if shared.new_block_received(&block) {
             let verify_callback = {
@@ -90,6 +94,10 @@ impl<'a> BlockProcess<'a> {
         );
         let shared = self.synchronizer.shared();
 
+        if let Some(uncle_hash) = mutated_uncle(&block) {
+            return mutated_uncle_status(&block, &uncle_hash);
+        }
+
         if shared.new_block_received(&block)
             && let Err(err) = self
                 .synchronizer
@@ -104,4 +112,24 @@ impl<'a> BlockProcess<'a> {
         }
         crate::Status::ok()
     }
+}
+
+// The block hash commits to an uncle through the uncle's header hash only; it is the uncle's
+// header that commits to the uncle's proposals. A block whose uncle carries other proposals is
+// invalid but has the hash of a block that may be valid, so it must be dropped before its
+// hash is given any block status.
+fn mutated_uncle(block: &core::BlockView) -> Option<Byte32> {
+    block
+        .uncles()
+        .into_iter()
+        .find(|uncle| uncle.proposals_hash() != uncle.calc_proposals_hash())
+        .map(|uncle| uncle.hash())
+}
+
+fn mutated_uncle_status(block: &core::BlockView, uncle_hash: &Byte32) -> crate::Status {
+    StatusCode::ProtocolMessageIsMalformed.with_context(format!(
+        "SendBlock {}: the proposals of uncle {} are unmatched with its header",
+        block.hash(),
+        uncle_hash
+    ))
 }
